@@ -1,5 +1,5 @@
 """C17 driver: generate skool macro term trees, render them into concrete macro text in every documented
-concrete syntax, plant the text in six places of a skool file, run the real skool2asm.main / skool2html.main
+concrete syntax, plant the text in seven places of a skool file, run the real skool2asm.main / skool2html.main
 and project the expansion found at each place.
 
 Three parts:
@@ -1765,14 +1765,16 @@ class Render:
 
 # ------------------------------------------------------------------------------------- skool file, real tools
 # place id -> (description, offset of the address #PC stands for there)
-PLACES = [('title', 0), ('description', 0), ('register', 0), ('instruction', 0), ('mid-block', 1), ('end', 1)]
+# the entry is  A: XOR A ; <3>  / mid-block <4> /  A+1: INC A ; {<6>  /  A+2: RET ; }  / end <5>: the end comment follows the
+# continuation row of a multi-instruction comment, whose #PC is that of the group's first instruction
+PLACES = [('title', 0), ('description', 0), ('register', 0), ('instruction', 0), ('mid-block', 1), ('end', 2), ('group', 1)]
 BASE_OPTS = {0: [], 10: ['-D'], 16: ['-H']}
 CASE_OPTS = {0: [], 1: ['-l'], 2: ['-u']}
 RE_PLANT = re.compile(r'~b(\d+)x(\d)~(.*?)~e\1x\2~', re.S)
 
 
 def entry_address(i):
-    return 32768 + 2 * i
+    return 32768 + 4 * i
 
 
 def skool_source(texts, bb):
@@ -1783,7 +1785,8 @@ def skool_source(texts, bb):
         def pl(k):
             return '~b%dx%d~%s~e%dx%d~' % (i, k, text, i, k)
         lines += ['; ' + pl(0), ';', '; ' + pl(1), ';', '; HL ' + pl(2),
-                  'c%05d XOR A ; %s' % (a, pl(3)), '; ' + pl(4), ' %05d RET' % (a + 1), '; ' + pl(5), '']
+                  'c%05d XOR A ; %s' % (a, pl(3)), '; ' + pl(4), ' %05d INC A ; {%s' % (a + 1, pl(6)), ' %05d RET   ; }' % (a + 2),
+                  '; ' + pl(5), '']
     return '\n'.join(lines) + '\n'
 
 
@@ -1838,7 +1841,7 @@ def make_case(rng, base, case, bb, maxdepth, ea):
         try:
             outs = []
             notes = set()
-            for off in (0, 1):
+            for off in (0, 1, 2):
                 sh = Shadow(Env(ea + off, base, case, bb))     # annotations are cumulative
                 outs.append(sh.expand(tree))
                 notes |= sh.taken
